@@ -2531,6 +2531,14 @@ fn seq_nodes<'a>(n: &'a JNode, parent: Option<&'a JNode>, out: &mut Vec<(&'stati
     }
 }
 
+fn load_outcome(vm: &RootedThread, text: &[u8]) -> String {
+    match gv::catch(|| de_value(vm, text).map(|_| ())) {
+        Err(p) => format!("(panic {})", gv::quote(&p)),
+        Ok(Err(e)) => format!("(error {})", err_class(&e.to_string())),
+        Ok(Ok(())) => "(ok)".to_string(),
+    }
+}
+
 /// Structural truncation of serialised values (wave-2 strengthening): trailing elements of a
 /// sequence-shaped node deleted at element boundaries (the JSON stays well formed) and the count field
 /// raised / lowered by one. Where the form is redundant (closure: explicit upvar count; record: one value
@@ -2564,7 +2572,7 @@ fn stream_struct(out: &mut Out, rng: &mut Rng, n: usize) {
         ];
         let which = if i % 3 == 0 { 9 } else { rng.below(9) as usize };
         let (shape, body): (&str, String) = if which == 9 {
-            ("all", format!("{{ {} }}", roots.iter().enumerate().filter(|(_, r)| r.0 != "pap").map(|(k, r)| format!("f{} = {}", k, r.1)).collect::<Vec<_>>().join(", ")))
+            ("all", format!("{{ {} }}", roots.iter().enumerate().map(|(k, r)| format!("f{} = {}", k, r.1)).collect::<Vec<_>>().join(", ")))
         } else {
             (roots[which].0, roots[which].1.clone())
         };
@@ -2594,7 +2602,7 @@ fn stream_struct(out: &mut Out, rng: &mut Rng, n: usize) {
             Some(r) => r,
             None => continue,
         };
-        let intact = de_payload(&vm2, &bytes);
+        let intact = load_outcome(&vm2, &bytes);
         if !intact.starts_with("(ok") {
             // the intact text must load (cycles through records do not: not generated here)
             out.count(&format!("struct:intact-not-loaded:{}", shape));
@@ -2630,7 +2638,7 @@ fn stream_struct(out: &mut Out, rng: &mut Rng, n: usize) {
                 out.count("struct:damage-not-wellformed");
                 continue;
             }
-            let r = de_payload(&vm2, t.as_bytes());
+            let r = load_outcome(&vm2, t.as_bytes());
             let redundant = kind == "closure" || kind == "record";
             // what was loaded, written again: identical to the damaged text = the loader took the short
             // element list as it stands; different = it made something up
@@ -2661,8 +2669,9 @@ fn stream_struct(out: &mut Out, rng: &mut Rng, n: usize) {
                     json!({"kind": "dag", "src": src, "damage": dmg, "node": kind, "text": t}),
                 );
                 vm2 = mk_vm(false, false);
-            } else if (outcome == "loaded-changed" && redundant) || (outcome == "loaded-as-written" && kind == "closure") {
-                let what = if r == intact {
+            } else if outcome == "loaded-changed" || (outcome == "loaded-as-written" && kind == "closure") {
+                let _ = redundant;
+                let what = if as_written {
                     "a value whose element list was cut short / whose count was changed loads (with made-up slots) instead of failing"
                 } else {
                     "a value whose element list was cut short / whose count was changed loads as something else instead of failing"
